@@ -136,3 +136,13 @@ Definition st_frame_row : mstate :=
 (* one loop iteration doing b[0].push(7), then shout(b) *)
 Definition p_push_row_in_loop : list op :=
   [OLoopIter; OPushScope; num7; OPromote; OPush 0 [0]; OPopScope; OLoopIterEnd; ORead 0; OShout].
+
+(* make s get "aa" add "bb"   do g() start s get "cc" add "dd" return "!" end
+   do f(p, q) start shout(p) end   f(s, g())
+   the first argument is read, then the second argument's evaluation overwrites the variable,
+   then both are bound *)
+Definition p_arg_then_reassign : list op :=
+  [OLit b_aa; OLit b_bb; OConcat; OMake 0;
+   OCallBegin; ORead 0;
+     OCallBegin; OCallBind []; OPushScope; OLit b_cc; OLit b_dd; OConcat; OAssign 0; OLit [33%Z]; OPopScope; OCallEnd;
+   OCallBind [1; 2]; OPushScope; ORead 1; OShout; OPopScope; OCallEnd; ODrop].
